@@ -184,7 +184,7 @@ StaleFire == \E p \in Names :
   /\ UNCHANGED <<rec, timer, selfInc, leave, nn, cfg, pendUpd, pendLeave, pendLeaveInc, ghost>>
 
 Reap ==
-  LET gone == {m \in Names : Reaped(rec[m], now, cfg.gossipDead)}
+  LET gone == {m \in Names \ {Self} : Reaped(rec[m], now, cfg.gossipDead)}
       rr   == [m \in Names |-> IF m \in gone THEN NoRec ELSE rec[m]]
   IN /\ rec' = rr
      /\ nn' = Cardinality({m \in Names : ~IsAbsent(rr[m])}) + Cardinality(Fillers)
